@@ -365,7 +365,11 @@ func (t *tree) parseCallParams() []ast.Node {
 			// see if anything is left after running it through rawtext()
 			var text = rawtext(initial.val, true, true)
 			if len(text) != 0 {
-				t.unexpected(initial, "{call}, in between {param}'s (orphan content)")
+				// report the text where it begins: the position of a text item is its
+				// end, which may be lines further down.
+				var blank = len(initial.val) - len(strings.TrimLeft(initial.val, " \t\r\n"))
+				t.errorfAt(initial.pos-ast.Pos(len(initial.val)-blank-1),
+					"unexpected %v in {call}, in between {param}'s (orphan content)", initial)
 			}
 			initial = t.nextNonComment()
 		}
@@ -1269,7 +1273,8 @@ func (t *tree) errorf(format string, args ...interface{}) {
 // and terminates processing.
 func (t *tree) errorfAt(pos ast.Pos, format string, args ...interface{}) {
 	t.root = nil
-	format = fmt.Sprintf("template %s:%d:%d: %s", t.name,
+	// (the name is text, not part of the format: a % in it stays a %.)
+	format = fmt.Sprintf("template %s:%d:%d: %s", strings.Replace(t.name, "%", "%%", -1),
 		t.lex.lineNumber(pos), t.lex.columnNumber(pos), format)
 	panic(
 		errortypes.NewErrFilePosf(
